@@ -545,6 +545,23 @@ impl Module for M {
                     let pos = (rng.range(-300, 300) as i32, rng.range(-300, 300) as i32);
                     emit(format!("text.layout {}", layout_tokens(&font, rng.below(4), rng.below(3), lh, col, pos, &s)));
                 }
+                if pid == "C02" {
+                    // C02: a slice of the measure ops (every third font / string pair): the pixels `draw_string` writes
+                    // lie inside the box `measure_string` reports (class C02:line-pixel-outside-measured-box, which no op
+                    // of the C02 check evaluated before: text.measure was generated for C15 only)
+                    let mut k = 0usize;
+                    for font in &fonts {
+                        for s in &strings {
+                            k += 1;
+                            if k % 3 != 0 {
+                                continue;
+                            }
+                            let col = COLOURS[k % COLOURS.len()];
+                            let pos = POSITIONS[k % 2];
+                            emit(format!("text.measure {} {} {} {} {} {} {} {} {}", font, k % 4, col.0, col.1, col.2, col.3, pos.0, pos.1, cps_of(s)));
+                        }
+                    }
+                }
                 if pid == "C15" {
                     // a moved `Text` keeps its layout (alignment, baseline, line height): `translate` changes the
                     // position only (C07's stream, a slice of it here: seeded change C15-r3-1 rebuilt the moved text
